@@ -319,6 +319,11 @@ def scalar_program(draw, early_virtual=False, linear=False, max_stmts=8, max_dep
         stmts.append(Decl("Signal", name, e))
         sc.signals.append(name)
         sc.typed[name] = False  # conservative: .type only of declared inputs
+        bare = e
+        while isinstance(bare, Paren):
+            bare = bare.e
+        if isinstance(bare, Ref) and sc.state.get(bare.name) == "shared":
+            sc.state[name] = "shared"  # an alias is the same wire: it inherits the source's sharing
         if is_comparison(e):
             sc.cmp_names.append(name)
     return Program(tuple(stmts))
@@ -532,7 +537,7 @@ def _zero_preserving(draw, names, depth, thresholds):
         return None
     if depth <= 0 or len(names) == 1 or draw(st.integers(0, 2)) == 0:
         n = names.pop()
-        k = draw(st.integers(0, 6))
+        k = draw(st.integers(0, 8))
         if k == 0:
             return Ref(n)
         if k == 1:
@@ -554,7 +559,14 @@ def _zero_preserving(draw, names, depth, thresholds):
             c = draw(st.integers(-40, 0))
             thresholds.setdefault(n, []).append(c)
             return Bin("<", Ref(n), Num(c))
-        return Bin("*", Ref(n), Num(draw(st.integers(-3, 3))))
+        if k == 6:
+            return Bin("*", Ref(n), Num(draw(st.integers(-3, 3))))
+        c = draw(st.integers(0, 40))
+        thresholds.setdefault(n, []).append(c)
+        if k == 7 or not names:  # value-carrying enable: (n > c) : K
+            return Cond(Bin(">", Ref(n), Num(c)), Num(draw(st.sampled_from([1, 2, 5, 100]))))
+        n2 = names.pop()  # (n > c) : n2 - enabled while n > c and n2 > 0
+        return Cond(Bin(">", Ref(n), Num(c)), Ref(n2))
     op = draw(st.sampled_from(["&&", "||", "*", "+"]))
     l = _zero_preserving(draw, names, depth - 1, thresholds)
     r = _zero_preserving(draw, names, depth - 1, thresholds)
@@ -612,8 +624,18 @@ def gated_memory_program(draw, steer=True, early_virtual=True):
         if prev_enable is not None and draw(st.integers(0, 3)) == 0:
             c = prev_enable  # a second cell gated by the structurally identical enable expression (written out again)
         prev_enable = c
+        c_name = None
+        if c is not None and draw(st.integers(0, 2)) == 0:  # the enable through a name, which later statements may reuse
+            c_name = sc.fresh(draw, "g")
+            stmts.append(Decl("Signal", c_name, c))
+            c = Ref(c_name)
         stmts.append(Write(m, v, c))
         cells.append(m)
+        if c_name and draw(st.booleans()):
+            # a value derived from the enable's name after the write meets a read of the cell in one combinator
+            x = sc.fresh(draw, "x")
+            stmts.append(Decl("Signal", x, Bin("==", Ref(c_name), Num(0)) if draw(st.booleans()) else Bin("+", Ref(c_name), Num(1))))
+            stmts.append(Decl("Signal", sc.fresh(draw, "r"), Bin(draw(st.sampled_from(["*", "+"])), MemRead(m), Ref(x))))
         for _ in range(draw(st.integers(1, 3))):
             r = sc.fresh(draw, "r")
             k = draw(st.integers(0, 3))
